@@ -1,5 +1,5 @@
 rc_target("c12_xml", flavour="asan")
-plan("C12", [T("c12_xml", 40000, 200000)], min_nt=7000,
+plan("C12", [T("c12_xml", 40000, 200000), TT(GCC("c12_xml"), 8000)], min_nt=7000,
      rule="generated element trees x per-element callback action, compared event by event with a model of the document",
      technique="model-based property testing (rapidcheck): element trees rendered to a document, expected (depth, parent, name, attributes, body) "
                "event list computed from the tree and the per-element actions, compared inside the traversal callbacks",
